@@ -1,8 +1,9 @@
 """C06 — both line-breaking algorithms return an ordered partition of the fragments."""
 from fragbase import *
+from kernelfit import FitKernels
 
 
-class C06(FragHarness):
+class C06(FitKernels, FragHarness):
     prop = 'C06'
     validate_every = 4
     panic_policy = 'vacuous'
@@ -21,6 +22,15 @@ class C06(FragHarness):
                 big = n >= 4
                 out.append({'algo': 'O', 'num': 'int', 'n': n, 'nlw': nlw, 'B': 64 if big else 1 << 10,
                             'LB': 256 if big else 1 << 12, 'SB': 3, 'PB': 2})
+        # engine C: one iteration of each algorithm's line-emitting loop from an arbitrary state satisfying the
+        # stated invariant (fragment lists of ANY length), and the contract of smawk::online_column_minima that the
+        # optimal-fit step assumes, over an arbitrary (unconstrained, even non-deterministic) matrix
+        out.append({'level': 'kernel-ff', 'algo': 'F', 'num': 'int'})
+        out.append({'level': 'kernel-ff', 'algo': 'F', 'num': 'fp', 'float_mode': 'fp'})
+        out.append({'level': 'kernel-bt', 'algo': 'O'})
+        for size in range(1, (5 if q else 7) + 1):
+            out.append({'level': 'smawk', 'algo': 'O', 'num': 'fp', 'float_mode': 'fp', 'size': size})
+        out.append({'level': 'smawk', 'algo': 'O', 'num': 'int', 'size': 6 if q else 8})
         # symbolic penalties for optimal-fit
         out.append({'algo': 'O', 'num': 'int', 'n': 2 if q else 3, 'nlw': 1, 'B': 64, 'LB': 256, 'SB': 2, 'PB': 1, 'sympen': True})
         return out
@@ -31,10 +41,23 @@ class C06(FragHarness):
                 'encoding) and 0..%d fragments with arbitrary finite f64 values (z3 floating-point theory: zero, negative, '
                 'fractional, subnormal), line-width lists of length 0..%d; optimal-fit through smawk MIR: 0..%d '
                 'fragments, integer widths <= 2^10, default penalties, plus symbolic penalties (<= 2^12) at n <= %d. '
-                'Optimal-fit with arbitrary (negative/fractional) f64 is outside the claim (FP theory too slow for gap*gap).'
-                % (4 if q else 6, 2 if q else 3, 2 if q else 3, 3 if q else 4, 2 if q else 3))
+                'Any length (one loop iteration from an abstract state): the first-fit loop, and the back-tracking loop of '
+                'optimal-fit under the row < column contract of smawk::online_column_minima; the contract itself on '
+                'smawk MIR for matrices of size <= %d with unconstrained f64 entries (NaN and infinities included; every '
+                'closure call returns a fresh value, so any cost function) and size %d with unconstrained integers. '
+                'Outside: the cost closure itself with non-integer f64 widths (its panic-freedom on in-range indices is '
+                'C04), LineNumbers::get beyond n <= %d.'
+                % (4 if q else 6, 2 if q else 3, 2 if q else 3, 3 if q else 4, 2 if q else 3, 5 if q else 7, 6 if q else 8,
+                   3 if q else 4))
 
     def run(self, I, cfg):
+        lv = cfg.get('level')
+        if lv == 'kernel-ff':
+            return self.run_kernel_first_fit(I, cfg)
+        if lv == 'kernel-bt':
+            return self.run_kernel_backtrack(I, cfg)
+        if lv == 'smawk':
+            return self.run_smawk_contract(I, cfg)
         inp = self.gen_frags(I, cfg)
         if cfg.get('sympen'):
             pen = [I.sym_int('pen%d' % k, 0, 1 << 12) for k in range(5)]
@@ -46,7 +69,14 @@ class C06(FragHarness):
         self.oracle(I, cfg, inp, out)
         return out
 
+    def native(self, nat, cfg, inp):
+        if cfg.get('level') == 'smawk':
+            return self.native_smawk(nat, cfg, inp)
+        return FragHarness.native(self, nat, cfg, inp)
+
     def oracle(self, I, cfg, inp, cuts):
+        if cfg.get('level') == 'smawk':
+            return self.smawk_oracle(I, cfg, inp, cuts)
         self.partition_oracle(I, len(inp['frags']), cuts)
 
 
